@@ -78,13 +78,39 @@ func (e *Engine) VerifyFn(fc *FnContract) {
 	V.Entry = fr.Params
 	// the nil reference / nil region is never an allocated object
 	st.Assume(e.C.Not(e.C.Select(e.allocMap(st), e.i64(0))))
+	// sentinel errors are non-nil (known syntactically, so that impossible branches are pruned)
+	for _, sn := range e.sentinels() {
+		st.Assume(e.C.Not(e.C.Eq(sn, e.i64(0))))
+	}
 	env := clauseEnv{params: fr.Params}
 	for _, rq := range fc.Requires {
 		st.Assume(e.evalClause(st, fr, rq, env).(*smt.Term))
 	}
 	st.Pre = st.Clone()
 	V.Pre = st.Pre
+	// vacuity guard: the assumptions at entry (type invariants + requires) must be satisfiable
+	e.coverCheck(fc.Key+"/cover/entry", st.PC)
 	e.exec(fr, fn.Blocks[0], 0, st, func(st2 *State, res []Value) {
+		// ... and every return statement must be reached by a feasible path (the first
+		// few paths per return site are recorded; one satisfiable one suffices)
+		site := "end"
+		if n := len(st2.Trace); n > 0 {
+			site = st2.Trace[n-1]
+		}
+		if len(st2.Trace) >= 1 {
+			// the last branch decision before the return identifies the site well enough
+			for i := len(st2.Trace) - 1; i >= 0; i-- {
+				if st2.Trace[i] != "return" {
+					site = st2.Trace[i]
+					break
+				}
+			}
+		}
+		key := fc.Key + "/cover/return-after:" + site
+		if V.nOblig["cover:"+key] < 12 {
+			V.nOblig["cover:"+key]++
+			e.coverCheck(key, st2.PC)
+		}
 		V.Returns++
 		if V.Returns > maxPaths {
 			e.fail("more than %d paths", maxPaths)
@@ -135,6 +161,90 @@ func (e *Engine) verifyLemma(fc *FnContract) {
 	for _, en := range fc.Ensures {
 		g := e.evalPure(st, fr, en.Fn, nil, params).(*smt.Term)
 		e.obligeNamed(st, fr, "lemma", en.C.Label, g, "", en.C.Tags, "")
+	}
+}
+
+// coverCheck: the conjunction of hyps must not be refutable (a contradictory contract
+// would make every obligation vacuously true). Quantified hypotheses are dropped (the
+// check is then an under-approximation of satisfiability: "unsat" is definite).
+func (e *Engine) coverCheck(name string, hyps []*smt.Term) {
+	var hy []*smt.Term
+	for _, h := range hyps {
+		if h.Op != smt.OForall && h.Op != smt.OExists {
+			hy = append(hy, h)
+		}
+	}
+	e.Covers = append(e.Covers, &Cover{Name: name, Hyps: hy})
+}
+
+type Cover struct {
+	Name   string
+	Hyps   []*smt.Term
+	Status string
+}
+
+// RunCovers decides the cover obligations; a definite "unsat" is a vacuity error.
+func (e *Engine) RunCovers(jobs int) {
+	type cj struct {
+		c      *Cover
+		script string
+	}
+	var js []*cj
+	for _, cv := range e.Covers {
+		asserts := append([]*smt.Term(nil), cv.Hyps...)
+		asserts = append(asserts, e.literalAxioms(asserts)...)
+		asserts = append(asserts, e.sentinelAxioms(asserts)...)
+		js = append(js, &cj{cv, e.C.Script("ALL", asserts, nil, false)})
+	}
+	var wg sync.WaitGroup
+	ch := make(chan *cj)
+	if jobs <= 0 {
+		jobs = 8
+	}
+	for w := 0; w < jobs; w++ {
+		wg.Add(1)
+		go func() {
+			defer wg.Done()
+			for j := range ch {
+				r := smt.Solve(j.script, smt.DefaultSolvers(10), 10*time.Second, 1)
+				j.c.Status = r.Status
+				if d := os.Getenv("GVC_DUMP_COVER"); d != "" && r.Status == "unsat" {
+					nm := strings.NewReplacer("/", "_", " ", "_", "*", "", "(", "", ")", "", ":", "_").Replace(j.c.Name)
+					smt.DumpScript(d, nm, j.script)
+				}
+			}
+		}()
+	}
+	for _, j := range js {
+		ch <- j
+	}
+	close(ch)
+	wg.Wait()
+	// a cover point (function entry, return site) is fine if one of its recorded paths is
+	// not refuted; it is vacuous if all of them are definitely unsatisfiable
+	byName := map[string][]*Cover{}
+	var names []string
+	for _, cv := range e.Covers {
+		if _, ok := byName[cv.Name]; !ok {
+			names = append(names, cv.Name)
+		}
+		byName[cv.Name] = append(byName[cv.Name], cv)
+	}
+	for _, nm := range names {
+		all := true
+		for _, cv := range byName[nm] {
+			if cv.Status != "unsat" {
+				all = false
+			}
+		}
+		if all {
+			if strings.Contains(nm, "/cover/entry") {
+				e.toolErr("%s: VACUOUS: the assumptions at function entry are contradictory", nm)
+			} else {
+				e.Stats["cover-infeasible-return-sites"]++
+				e.InfeasibleSites = append(e.InfeasibleSites, nm)
+			}
+		}
 	}
 }
 
@@ -1157,7 +1267,7 @@ func (e *Engine) Discharge(obs []*Obligation, opts DischargeOpts) {
 			defer wg.Done()
 			for j := range ch {
 				r := smt.Solve(j.script, smt.DefaultSolvers(opts.TimeoutS), time.Duration(opts.TimeoutS)*time.Second, opts.NeedAgree)
-				if r.Status != "unsat" && opts.DumpDir != "" {
+				if (r.Status != "unsat" || os.Getenv("GVC_DUMP_ALL") != "") && opts.DumpDir != "" {
 					nm := strings.NewReplacer("/", "_", " ", "_", "*", "", "(", "", ")", "", ":", "_", "$", "_", "#", "_").Replace(j.ob.Name)
 					smt.DumpScript(opts.DumpDir, fmt.Sprintf("%s.%d.%d", nm, j.ob.ID, j.idx), j.script)
 				}
